@@ -19,8 +19,12 @@ EARLIER_THAN_REFERENCE = {"duplicate-parameter", "repeated-keyword", "tab-after-
 def unwrap(err):
     """errors raised while parsing a replacement field are wrapped: FStringError(InvalidExpression(Lexical(X)))"""
     e = err or ""
-    m = re.match(r"Lexical\(FStringError\(InvalidExpression\((.*)\)\)\)$", e, re.S)
-    return (m.group(1), True) if m else (e, False)
+    wrapped = False
+    while True:
+        m = re.match(r"Lexical\(FStringError\(InvalidExpression\((.*)\)\)\)$", e, re.S)
+        if not m:
+            return (e, wrapped)
+        e, wrapped = m.group(1), True
 
 
 def names_rule(rule, err, extra):
@@ -66,9 +70,10 @@ def names_rule(rule, err, extra):
     if rule == "as-underscore":
         return "cannot use '_' as a target" in e
     if rule == "fstring":
-        return e.startswith("Lexical(FStringError(" + extra)
+        # forms without a dedicated FStringError kind: any rejection located inside the literal counts
+        return extra == "" or (err or "").startswith("Lexical(FStringError(" + extra)
     if rule == "invalid-escape":
-        return "UnicodeError" in e
+        return "UnicodeError" in e or "StringError" in e
     return False
 
 
@@ -142,6 +147,9 @@ def token_edits(text, rng, per_rule):
         i, j = P.idx(t.start), P.idx(t.end)
         eol = text.find("\n", j)
         eol = len(text) if eol < 0 else eol
+        while eol < len(text) and text[:eol].endswith("\\"):
+            nxt = text.find("\n", eol + 1)
+            eol = len(text) if nxt < 0 else nxt
         if "'" not in text[j:eol] and '"' not in text[j:eol] and "\\" not in t.string[-3:]:
             out.append(Site("unterminated-string", text[:j - 1] + text[j:], (bi(text, i), bi(text, eol) + 1)))
         # the whole implicit concatenation this literal belongs to
